@@ -79,7 +79,78 @@ def chk_seed(case):
     return []
 
 
-CASES = {"entropy": chk_entropy, "phrase": chk_phrase, "seed": chk_seed}
+class _FaultyFile:
+    """a text file that delivers `limit` characters and then fails with EIO (transient medium error) - the environment answer
+    for the word-list read.  read() of more than the limit fails before delivering anything, iteration fails part-way."""
+
+    def __init__(self, f, limit):
+        self.f, self.left = f, limit
+
+    def _take(self, s):
+        if len(s) > self.left:
+            self.left = 0
+            raise OSError(5, "Input/output error (injected)")
+        self.left -= len(s)
+        return s
+
+    def read(self, n=-1):
+        return self._take(self.f.read(n))
+
+    def readline(self, *a):
+        return self._take(self.f.readline(*a))
+
+    def readlines(self, *a):
+        return [self._take(l) for l in self.f.readlines(*a)]
+
+    def __iter__(self):
+        return self
+
+    def __next__(self):
+        l = self.f.readline()
+        if not l:
+            raise StopIteration
+        return self._take(l)
+
+    def __enter__(self):
+        return self
+
+    def __exit__(self, *a):
+        self.f.close()
+
+    def close(self):
+        self.f.close()
+
+
+def chk_fault(case):
+    """one call made while the word-list read fails after `limit` characters: raising is fine, a RESULT must be right; the
+    environment is healthy again afterwards (what later operations of the sequence see)"""
+    import builtins
+    import bits.bips.bip39 as b39
+    real = builtins.open
+    R.words()                    # the reference reads its own copy while the environment is healthy
+
+    def faulty(path, *a, **kw):
+        f = real(path, *a, **kw)
+        if str(path).endswith("english.txt") and "b" not in (a[0] if a else kw.get("mode", "r")):
+            return _FaultyFile(f, case["limit"])
+        return f
+    ent = bytes.fromhex(case["ent"])
+    b39.open = faulty            # module-level name shadows the builtin for this module only
+    builtins.open = faulty
+    try:
+        got = call(b39.calculate_mnemonic_phrase, ent)
+    finally:
+        builtins.open = real
+        try:
+            del b39.open
+        except AttributeError:
+            pass
+    if got is not None and got[0] == "ok" and got[1] != R.to_mnemonic(ent):
+        return [("C10/fault/wrong-result", f"to_mnemonic returned {str(got[1])[:60]} while the word-list read failed after {case['limit']} characters")]
+    return []
+
+
+CASES = {"entropy": chk_entropy, "phrase": chk_phrase, "seed": chk_seed, "fault": chk_fault}
 
 
 def run_case(kind, case):
@@ -97,6 +168,13 @@ def seq_ops(job):
            ("phrase", {"phrase": p12}), ("phrase", {"phrase": p24}), ("phrase", {"phrase": " ".join(w[:-1] + ["zoo" if w[-1] != "zoo" else "abandon"])}),
            ("phrase", {"phrase": " ".join(w[:-1])}), ("phrase", {"phrase": " ".join([w[0][:-1]] + w[1:])}),
            ("seed", {"phrase": p12, "pass": ""}), ("seed", {"phrase": p12, "pass": "é"}), ("seed", {"phrase": p24, "pass": "TREZOR"})]
+    # the boundary between the two string arguments moved: the same concatenation mnemonic+passphrase split three ways, and a
+    # passphrase that starts with the salt prefix
+    w24 = p24.split()
+    ops += [("seed", {"phrase": " ".join(w24[:12]), "pass": " " + " ".join(w24[12:])}), ("seed", {"phrase": " ".join(w24[:12]) + " ", "pass": " ".join(w24[12:])}),
+            ("seed", {"phrase": p24, "pass": ""}), ("seed", {"phrase": p12, "pass": "mnemonic"}), ("seed", {"phrase": p12 + "mnemonic", "pass": ""})]
+    # environment deviation: the word-list read fails (immediately / part-way) during one call, then works again
+    ops += [("fault", {"limit": 0, "ent": "00" * 16}), ("fault", {"limit": 6000, "ent": "ff" * 16})]
     return ops
 
 
